@@ -138,8 +138,11 @@ class FHash:
     def _eq(self, o):
         if [len(x) for x in self.parts] != [len(x) for x in o.parts]:
             return False
-        diff = [a == b for x, y in zip(self.parts, o.parts)
-                for a, b in zip(x, y) if a.get_id() != b.get_id()]
+        pairs = [(a, b) for x, y in zip(self.parts, o.parts)
+                 for a, b in zip(x, y) if a.get_id() != b.get_id()]
+        if any(a.sort() != b.sort() for a, b in pairs):
+            return False
+        diff = [a == b for a, b in pairs]
         if not diff:
             return True
         e = z3.simplify(z3.And(diff))
@@ -159,8 +162,22 @@ class FHash:
 
 
 def hashobj(obj):
+    """structural stand-in for util.hashobj: boolean arrays, integers and
+    (nested) lists of these or of earlier hashes"""
+    def parts(o):
+        if isinstance(o, FHash):
+            return o.parts + [[]]
+        if isinstance(o, (list, tuple)):
+            return [p for x in o for p in parts(x)] + [[]]
+        if isinstance(o, (bool, SBool)):
+            return [[tobool(o)]]
+        if isinstance(o, (int, SInt, np.integer)):
+            return [[toint(o)]]
+        return [[tobool(b) for b in o]]
     if isinstance(obj, list) and all(isinstance(x, FHash) for x in obj):
         return FHash([p for x in obj for p in x.parts + [[]]])
+    if isinstance(obj, (list, tuple)):
+        return FHash(parts(obj))
     return FHash([[tobool(b) for b in obj]])
 
 
